@@ -263,6 +263,17 @@ func (r *FeatureLocal) ApproveOrDenyWrite(msg *api.Message, err model.ErrorType)
 	// do we have enough approvals?
 	r.muxWriteReceived.Lock()
 	defer r.muxWriteReceived.Unlock()
+
+	// the write may have been decided, or its remote device or entity removed,
+	// since the lookup above: an approval counted now would be left behind and
+	// count for a later write with the same message counter
+	r.muxResponseCB.Lock()
+	_, ok = r.pendingWriteApprovals[ski][*msg.RequestHeader.MsgCounter]
+	r.muxResponseCB.Unlock()
+	if !ok {
+		return
+	}
+
 	if count > 1 && err.ErrorNumber == 0 {
 		amount, ok := r.writeApprovalReceived[ski][*msg.RequestHeader.MsgCounter]
 		if ok {
@@ -309,21 +320,22 @@ func (r *FeatureLocal) SetWriteApprovalTimeout(duration time.Duration) {
 }
 
 func (r *FeatureLocal) CleanWriteApprovalCaches(ski string) {
-	// the received approvals are guarded by their own mutex, the locks are
-	// taken one after the other as ApproveOrDenyWrite nests them
-	r.muxWriteReceived.Lock()
-	delete(r.writeApprovalReceived, ski)
-	r.muxWriteReceived.Unlock()
-
 	r.muxResponseCB.Lock()
-	defer r.muxResponseCB.Unlock()
-
 	// stop the timers, otherwise they send an error result to the removed device when they fire
 	for _, timer := range r.pendingWriteApprovals[ski] {
 		timer.Stop()
 	}
 	delete(r.pendingWriteApprovals, ski)
 	delete(r.pendingWriteApprovalEntities, ski)
+	r.muxResponseCB.Unlock()
+
+	// the received approvals are guarded by their own mutex, the locks are
+	// taken one after the other as ApproveOrDenyWrite nests them; the pending
+	// entries go first, so that an approval that is being counted right now
+	// either finds its entry gone or is removed here
+	r.muxWriteReceived.Lock()
+	delete(r.writeApprovalReceived, ski)
+	r.muxWriteReceived.Unlock()
 }
 
 // Remove subscriptions and bindings from local cache for a remote device
